@@ -492,7 +492,22 @@ class Engine(object):
             if r == z3.unsat:
                 return None
             if r != z3.sat:
-                raise Unsupported('solver undecided while enumerating values')
+                # nonlinear path constraints can leave the existence of another value open: enumerate
+                # over the linear part of the path condition instead (a superset of the feasible values;
+                # an infeasible extra value only adds a path whose obligations hold vacuously)
+                rs = z3.Solver()
+                self._limit(rs, self.timeout_ms)
+                for c in self.pc:
+                    if not _nonlinear(c):
+                        rs.add(c)
+                for v in done:
+                    rs.add(t != v)
+                r2 = rs.check()
+                if r2 == z3.unsat:
+                    return None
+                if r2 != z3.sat:
+                    raise Unsupported('solver undecided while enumerating values')
+                return rs.model().eval(t, model_completion=True).as_long()
             m = self.solver.model()
             v = m.eval(t, model_completion=True)
             return v.as_long()
@@ -1116,6 +1131,22 @@ class Engine(object):
             'samples': self.samples,
             'labels': _count_labels(self.results),
         }
+
+
+def _nonlinear(term, _cache={}):
+    """Does the term contain a product of two non-constant factors?"""
+    todo = [term]
+    seen = set()
+    while todo:
+        x = todo.pop()
+        if x.get_id() in seen:
+            continue
+        seen.add(x.get_id())
+        if z3.is_app(x):
+            if x.decl().kind() == z3.Z3_OP_MUL and sum(1 for a in x.children() if not z3.is_int_value(a)) >= 2:
+                return True
+            todo.extend(x.children())
+    return False
 
 
 def _count_labels(results):
